@@ -449,7 +449,7 @@ impl Fiber {
       "Offset past end of functions"
     );
     debug_assert!(
-      slot_depth < self.fun().max_slots(),
+      slot_depth < self.fun().max_slots() + self.fun().parameter_count() as usize,
       "Slot offset more than function maximum"
     );
 
